@@ -12,6 +12,9 @@ follows a per-iteration working copy of the remaining work (spliced one-day help
 Round 6: countdown counters (`left -= 1; while left > 0`); a bounded loop in a helper that is new in the tree may report
 exhaustion to its caller instead of raising; worklist push/pop moved into nested procedures; `xs = []` + one accumulate loop is
 read as its comprehension; the project bound kept on the scheduler is never None where it is read; reduce() without initial.
+Round 7: the future-end validator may be written inside calc (sched_dep.resolve_validator) and must compare task.end with the
+clock itself; the loop check may be written inside _check_loops; a memo kept on the scheduler outlives a failed calc; sort keys
+over nullable fields; `remaining -= reserve(..) if free > 0 else 0` and a hoisted booked amount in the loop-exit inference.
 Not decided: stack depth on legitimately deep acyclic inputs; exceptions raised inside user supplied IResource /
 calendar callables; clone()'s dictionary lookups (assumption table: keys are drawn from the collection that built the map).
 """
@@ -71,6 +74,16 @@ def check(ctx):
                "each recursive pass returns immediately for a task in the memo and appends the task to the memo on every normal exit", floor=2)
     ctx.guarded(o, lambda o: memo(ctx, o))
 
+    o = ctx.ob('memo_is_per_call', 'R6d',
+               "the memo of scheduled ids is allocated by each calc call: a memo kept on the scheduler (or on the tasks) outlives a calc "
+               "that ended in a RuntimeError diagnosis, the next calc skips the tasks placed before the failure and the roll-up of their "
+               "summaries meets None (TypeError) - shared rule with C07", floor=2)
+
+    def memo_scope(o):
+        for S in BOTH:
+            sched.memo_is_local(ctx, o, S)
+    ctx.guarded(o, memo_scope)
+
     o = ctx.ob('loop_check_covers_recursion_edges', 'R6d',
                "the pre-flight loop check walks the wait-for graph over start/end of every task: start -> predecessor ends and parent "
                "start, end -> own start and children ends (every edge kind the passes recurse over), from every task, with fresh "
@@ -91,7 +104,13 @@ def check(ctx):
                 continue
             cn = cfg.node_containing(clones[0])
             for v in vs:
-                vf = prog.func(v)
+                vf = sched_dep.resolve_validator(ctx, S, v)
+                if isinstance(vf, sched_dep.AsValidator):
+                    if cfg.dominates(cfg.node_of(vf.loop), cn):
+                        o.site(calc, vf.loop, "future-end check (written in calc) runs before clone()")
+                    else:
+                        o.refute(calc, vf.loop, vf.name, "the future-end check does not run before clone()")
+                    continue
                 good = [c for c in facts.calls_named(calc, vf.name) if c.args and isinstance(c.args[0], ast.Name)
                         and c.args[0].id == inp and cfg.dominates(cfg.node_containing(c), cn)]
                 if good:
@@ -137,6 +156,11 @@ def check(ctx):
                "missing argument (to the clock) before storing it, or every read is guarded", floor=2)
     ctx.guarded(o, lambda o: bound_not_none(ctx, o))
 
+    o = ctx.ob('future_end_is_diagnosed', 'R6a',
+               "the forward pre-flight check raises RuntimeError for every task whose fixed end is later than the clock: the end is "
+               "compared with the clock read itself, not with a later moment", floor=1)
+    ctx.guarded(o, lambda o: future_end_check(ctx, o))
+
     o = ctx.ob('next_has_a_default', 'R6b',
                "every next() on an iterator that can run dry (a filtered / finite generator) passes a default and every "
                "functools.reduce() over a possibly empty sequence an initial value: a bare next() ends in StopIteration, a bare "
@@ -170,6 +194,8 @@ def _cycle_avoiding(cfg, hdr, avoid_ids):
         if n.id in seen or n.id in avoid_ids:
             continue
         seen.add(n.id)
+        if not cfg.dominates(hdr, n):
+            continue        # left the loop (e.g. back to the header of an enclosing loop): not a cycle of THIS loop
         todo.extend(n.succ)
     return False
 
@@ -460,7 +486,14 @@ def memo(ctx, o):
 def loop_check(ctx, o):
     prog = ctx.prog
     f = prog.func('schedule._check_loops')
-    g = prog.func('schedule._check_loops_from_task')
+    g = prog.funcs.get('schedule._check_loops_from_task')
+    inline = False
+    if g is None:
+        # the search from one task written inside _check_loops itself: `for task in project.tasks: <iterative DFS>`
+        whiles = [w for w in walk_no_nested(f.node) if isinstance(w, ast.While)]
+        if not whiles:
+            g = prog.func('schedule._check_loops_from_task')       # AnchorMissing
+        g, inline = f, True
     # fresh state per call: the shared set is allocated inside _check_loops
     a = f.node.args
     if a.defaults or a.kw_defaults and any(d is not None for d in a.kw_defaults):
@@ -471,8 +504,26 @@ def loop_check(ctx, o):
         o.refute(f, f.node, 'parameters', "_check_loops takes state from its caller")
         return
     ex = Expander(prog, f, ctx.typer)
-    calls = facts.calls_named(f, g.name)
-    if not calls:
+    calls = facts.calls_named(f, g.name) if not inline else []
+    if inline:
+        for w in [w for w in walk_no_nested(f.node) if isinstance(w, ast.While)]:
+            fors = cfg_of(f).enclosing_fors(cfg_of(f).node_of(w))
+            fit = sched.strip_seq_copy(ex.expand(fors[0].iter, cfg_of(f).node_of(fors[0]))) if fors else None
+            if not fors or not match(f"{f.params[0]}.tasks", fit):
+                o.refute(f, w, w.test, f"the loop check does not start from every task of the WBS ({f.params[0]}.tasks)")
+                continue
+            # every container the search tests membership in is allocated by this call
+            marks = {x.comparators[0].id for x in walk_no_nested(f.node) if isinstance(x, ast.Compare) and len(x.ops) == 1 and
+                     isinstance(x.ops[0], (ast.In, ast.NotIn)) and isinstance(x.comparators[0], ast.Name)}
+            fl_ = flow_of(f)
+            stale = [m_ for m_ in marks if not fl_.defs_of(m_) or any(d.kind != 'assign' or d.value is None or not (
+                match("set()", d.value) or match("[]", d.value) or match("{}", d.value) or isinstance(d.value, (ast.Set, ast.List, ast.Dict)))
+                for d in fl_.defs_of(m_))]
+            if stale:
+                o.refute(f, w, stale[0], f"the loop check keeps `{stale[0]}` outside this call")
+            else:
+                o.site(f, w, "from every task, state allocated by this call")
+    elif not calls:
         o.refute(f, f.node, g.name, "_check_loops never walks the graph")
         return
     for c in calls:
@@ -765,14 +816,27 @@ def _loop_exit_divisor(ctx, f, node, D, S):
         copies = [x for x in wdefs if x.kind == 'assign']
         augs = [x for x in wdefs if x.kind == 'aug']
         return len(copies) == 1 and isinstance(copies[0].value, ast.Name) and copies[0].value.id == gvar and in_loop_node(copies[0].node) and \
-            cfg.dominates(copies[0].node, d.node) and len(augs) == 1 and augs[0].stmt.value is c and isinstance(augs[0].stmt.op, ast.Sub) and \
+            cfg.dominates(copies[0].node, d.node) and len(augs) == 1 and books(augs[0].stmt.value) and isinstance(augs[0].stmt.op, ast.Sub) and \
             len(copies) + len(augs) == len(wdefs)
 
     lhdr = cfg.node_of(loop)
 
     def in_loop_node(n_):
         return n_ is not None and lhdr is not None and cfg.can_reach(lhdr, n_) and cfg.can_reach(n_, lhdr)
-    if not defs or any(not ((d.kind == 'aug' and d.stmt.value is c) or via_working_copy(d)) for d in defs):
+    def books(v):
+        """the subtracted amount is the booking, or `booking if free > 0 else 0` (nothing is subtracted on a full day)"""
+        if v is c:
+            return True
+        if isinstance(v, ast.IfExp):
+            a, b = v.body, v.orelse
+            return (a is c and facts.const_num(b) == 0) or (b is c and facts.const_num(a) == 0)
+        if isinstance(v, ast.Name) and v.id not in f.params:
+            # `booked = reserve(..)` under free > 0, `booked = 0` otherwise; `remaining -= booked`
+            bd = fl.defs_of(v.id)
+            return bool(bd) and all(x.kind == 'assign' and (x.value is c or facts.const_num(x.value) == 0) for x in bd) and \
+                any(x.value is c for x in bd) and all(in_loop_node(x.node) for x in bd)
+        return False
+    if not defs or any(not ((d.kind == 'aug' and isinstance(d.stmt.op, ast.Sub) and books(d.stmt.value)) or via_working_copy(d)) for d in defs):
         return ('undecided', "the remaining work is updated elsewhere than at the booking")
     rnode = cfg.node_containing(c)
     # booking dominated by V - RESV > 0 where V is the divisor (same value)
@@ -783,6 +847,9 @@ def _loop_exit_divisor(ctx, f, node, D, S):
     conds = []
     for t, pol in cfg.conditions(rnode):
         conds += facts.split_conj(ex.expand(t, cfg.node_containing(t), stop=selfref), pol)
+    if rnode is not None and rnode.ast is not None:
+        for t, pol in (eval_conditions(rnode.ast, c) or []):       # `booking if free > 0 else 0`
+            conds += facts.split_conj(ex.expand(t, rnode, stop=selfref), pol)
     cap_of_booking = None
     for t, p in conds:
         s2 = sched.sign_test(t, p)
@@ -974,6 +1041,26 @@ NULLABLE = ('start', 'end', 'estimate', 'spent', 'min_start')
 
 def none_safe(ctx, o, core):
     prog = ctx.prog
+    # ordering by a key built from a nullable field (`sorted(rows, key=lambda r: (r.date, r.resource.name))`): None and str / datetime do
+    # not compare; a task without resource gets the anonymous Resource(None)
+    for f in core:
+        if f.module.name != 'schedule' or isinstance(f.node, ast.Lambda):
+            continue
+        for n in walk_no_nested(f.node):
+            if isinstance(n, ast.Call) and ((isinstance(n.func, ast.Name) and n.func.id in ('sorted', 'min', 'max')) or
+                                            (isinstance(n.func, ast.Attribute) and n.func.attr == 'sort')):
+                for k in n.keywords:
+                    if k.arg == 'key' and isinstance(k.value, ast.Lambda):
+                        for x in ast.walk(k.value.body):
+                            if isinstance(x, ast.Attribute) and x.attr in ('name', 'resource') + NULLABLE:
+                                par = _parent_in(k.value.body, x)
+                                shielded = (isinstance(par, ast.BoolOp) and isinstance(par.op, ast.Or)) or \
+                                    (isinstance(par, ast.Call) and isinstance(par.func, ast.Name) and par.func.id in ('str', 'repr', 'bool', 'id')) or \
+                                    (isinstance(par, ast.Compare)) or isinstance(par, ast.IfExp) or \
+                                    (isinstance(par, ast.Attribute))
+                                if not shielded:
+                                    o.refute(f, n, n, f"`{src(n)[:70]}` orders by `{src(x)}`, which may be None (a task without resource gets the "
+                                                      f"anonymous Resource(None)): None does not compare with str / datetime (TypeError)")
     for f in core:
         if isinstance(f.node, ast.Lambda) or f.module.name != 'schedule':
             continue
@@ -1051,6 +1138,14 @@ def _definitely_set(ps, attr, at):
             return False
         todo.extend(x.succ)
     return True
+
+
+def _parent_in(root, node):
+    for n in ast.walk(root):
+        for ch in ast.iter_child_nodes(n):
+            if ch is node:
+                return n
+    return None
 
 
 def _fills_all_branches(ps, attr, test):
@@ -1283,6 +1378,44 @@ def _local_definitely_set(f, name, at):
             return False
         todo.extend(x.succ)
     return True
+
+
+def future_end_check(ctx, o):
+    prog = ctx.prog
+    vf = sched_dep.resolve_validator(ctx, FWD, sched_dep.FUTURE_END)
+    if isinstance(vf, sched_dep.AsValidator):
+        o.site(vf.calc, vf.raise_, "task.end > clock raises RuntimeError (check written in calc)")
+        return
+    ex = Expander(prog, vf, ctx.typer)
+    found = False
+    for r in [x for x in walk_no_nested(vf.node) if isinstance(x, ast.Raise)]:
+        if facts.exc_name(r) != 'RuntimeError':
+            continue
+        for t, p in facts.node_conditions(prog, vf, r, ctx.typer, expand=True):
+            if not (isinstance(t, ast.Compare) and len(t.ops) == 1):
+                continue
+            l, op, rr = t.left, t.ops[0], t.comparators[0]
+            if isinstance(l, ast.Attribute) and l.attr == 'end' and ((isinstance(op, (ast.Gt, ast.GtE)) and p) or (isinstance(op, (ast.LtE, ast.Lt)) and not p)):
+                other = rr
+            elif isinstance(rr, ast.Attribute) and rr.attr == 'end' and ((isinstance(op, (ast.Lt, ast.LtE)) and p) or (isinstance(op, (ast.GtE, ast.Gt)) and not p)):
+                other = l
+            else:
+                continue
+            found = True
+            if sched_dep._is_now(other):
+                o.site(vf, r, "task.end > clock raises RuntimeError")
+                continue
+            args = facts.flatten_lattice(other, 'max')
+            if args and any(sched_dep._is_now(a) for a in args) and len(args) > 1:
+                o.refute(vf, r, other, f"a fixed end is only rejected when it is later than `{src(other)[:60]}`, which can be later than the clock: "
+                                       f"an end in the future but before that moment is scheduled (start after end) instead of diagnosed")
+            elif isinstance(other, ast.BinOp) and isinstance(other.op, ast.Add) and sched_dep._is_now(other.left):
+                o.refute(vf, r, other, f"a fixed end is only rejected when it is later than `{src(other)[:60]}` (the clock plus a margin): an end in "
+                                       f"the future inside the margin is not diagnosed")
+            else:
+                o.undecided(vf, r, other, f"the future-end check compares task.end with `{src(other)[:60]}`, which the rule cannot relate to the clock")
+    if not found:
+        o.undecided(vf, vf.node, 'future end test', "no `task.end > <moment>` test guarding a RuntimeError found in the future-end check")
 
 
 def bound_not_none(ctx, o):
